@@ -66,6 +66,8 @@ type Doc struct {
 	Mode   Mode
 	S      Shape ` + "`json:\"shape\"`" + `
 	Ls     []Level
+	LL     [][]int
+	MS     map[string][]string
 	P      Pair
 	M      map[string]int
 	ByID   map[ID]string
@@ -522,6 +524,14 @@ func Check() {
 		}
 		v.P = Pair{int(vfInt("p0", 0, 9)), 5}
 		v.Grid = [2]Pair{{1, 2}, {int(vfInt("g", 0, 9)), 4}}
+		switch vfChoice("ll", 3) {
+		case 1:
+			v.LL = [][]int{{1}, nil, {}}
+			v.MS = map[string][]string{"a": nil, "b": {"x"}}
+		case 2:
+			v.LL = [][]int{}
+			v.MS = map[string][]string{}
+		}
 	case 3:
 		switch vfChoice("m", 3) {
 		case 1:
